@@ -4,7 +4,7 @@ from __future__ import annotations
 
 import ast
 
-from ..absint import Const, DictV, ListV, ObjV, Sym
+from ..absint import NONE, ClassV, Const, DictV, ListV, ObjV, Sym
 from ..flow import FlowPolicy, exits, run_flow
 from ..repo import AnalysisError, body_walk, call_name, norm, short
 
@@ -140,7 +140,78 @@ def run(ctx):
         names = [call_name(n) for n in body_walk(f) if isinstance(n, ast.Call)]
         ok = before in names and after in names and names.index(before) < names.index(after)
         ctx.check(ok, "R08.5", uid, "context stored for the task before the function body runs", msg=f"{uid}: order of {before} / {after} is {names}", key="context stored before call", node=f, rel=uid.split("::")[0])
+    ctx.rule("R08.6", "shared source listeners: one bus/broker/webhook registration per subscribed type - made when the first subscriber arrives, "
+             "released (handle called) when the last one leaves, so re-subscription never doubles the deliveries", floor=24)
+    listener_table(ctx, program, "R08.6")
     return (
         "Static, source-only: sibling agreement of the six argument builders, aliasing rule on the four fan-out loops, def-use agreement between filter input and dispatched "
         "dictionary plus per-path dispatch counting (flow analysis), call-site rule for context=, ordering of context storage.  Not decided: loss, duplication or reordering under bursts."
     )
+
+
+LISTENER_CLASSES = (("Event", "event.py"), ("Mqtt", "mqtt.py"), ("Webhook", "webhook.py"))
+ACQUIRE_CALLS = ("async_listen", "async_subscribe", "async_register")
+
+
+class _ListenerPolicy(FlowPolicy):
+    def call(self, interp, node, fname, fval, args, kwargs, cfg, out):
+        if isinstance(fval, Sym) and fval.tag and fval.tag[0] == "handle":
+            return [(cfg.emit(("call", "handle", fval.tag[1])), NONE)]
+        return super().call(interp, node, fname, fval, args, kwargs, cfg, out)
+
+
+def _set(*qs):
+    return ListV(tuple(Const(q) for q in qs), "set")
+
+
+def listener_table(ctx, program, rid):
+    """notify_add / notify_del of the three shared sources interpreted on every small subscriber table (transition table)."""
+    H = lambda t: Sym(("handle", t))  # noqa: E731
+    # (label, table before {type: queues}, operation, type, queue, acquisitions expected, handles expected to be called, table after)
+    cases = [
+        ("first subscriber of a type", {}, "add", "t", "q0", 1, [], {"t": ["q0"]}),
+        ("second subscriber of a type", {"t": ["q1"]}, "add", "t", "q0", 0, [], {"t": ["q1", "q0"]}),
+        ("same subscriber again", {"t": ["q0"]}, "add", "t", "q0", 0, [], {"t": ["q0"]}),
+        ("first subscriber, other type present", {"u": ["q2"]}, "add", "t", "q0", 1, [], {"u": ["q2"], "t": ["q0"]}),
+        ("last subscriber leaves", {"t": ["q0"]}, "del", "t", "q0", 0, ["t"], {}),
+        ("one of two leaves", {"t": ["q0", "q1"]}, "del", "t", "q0", 0, [], {"t": ["q1"]}),
+        ("non-subscriber leaves", {"t": ["q1"]}, "del", "t", "q0", 0, [], {"t": ["q1"]}),
+        ("unknown type", {}, "del", "t", "q0", 0, [], {}),
+        ("last subscriber leaves, other type stays", {"t": ["q0"], "u": ["q2"]}, "del", "t", "q0", 0, ["t"], {"u": ["q2"]}),
+    ]
+    for cls, rel in LISTENER_CLASSES:
+        for label, before, op, typ, q, n_acq, handles, after in cases:
+            uid = f"{rel}::{cls}.notify_{op}"
+            fn = program.func(uid)
+            params = [a.arg for a in fn.args.args]
+            pol = _ListenerPolicy(program, may_raise_all=False, cancel=False,
+                                  events=[lambda l: "acquire" if l and l.split(".")[-1] in ACQUIRE_CALLS else None])
+            heap = {f"{cls}.notify": DictV([(Const(t), _set(*qs)) for t, qs in before.items()]),
+                    f"{cls}.notify_remove": DictV([(Const(t), H(t)) for t in before]), f"{cls}.hass": Sym(("hass",))}
+            args = {"cls": ClassV(cls), params[1]: Const(typ), "queue": Const(q)}
+            out = run_flow(program, uid, pol, args=args, heap=heap)
+            bad = None
+            n = 0
+            for kind, c, desc in exits(out):
+                n += 1
+                if kind != "return":
+                    bad = f"leaves with {desc}"
+                    continue
+                acq = len([e for e in c.trace if e[0] == "call" and e[1] == "acquire"])
+                called = [e[2] for e in c.trace if e[0] == "call" and e[1] == "handle"]
+                tab = c.heap.get(f"{cls}.notify")
+                rem = c.heap.get(f"{cls}.notify_remove")
+                got_tab = {k.v: sorted(x.v for x in v.items) for k, v in tab.items} if isinstance(tab, DictV) and all(isinstance(v, ListV) for _, v in tab.items) else repr(tab)
+                want_tab = {t: sorted(qs) for t, qs in after.items()}
+                rem_keys = sorted(k.v for k, v in rem.items if v != NONE) if isinstance(rem, DictV) else repr(rem)
+                if acq != n_acq:
+                    bad = f"{acq} registration(s) with Home Assistant, expected {n_acq}"
+                elif called != handles:
+                    bad = f"un-listen handles called: {called}, expected {handles}"
+                elif got_tab != want_tab:
+                    bad = f"subscriber table becomes {got_tab}, expected {want_tab}"
+                elif rem_keys != sorted(after):
+                    bad = f"un-listen handles kept for {rem_keys}, expected {sorted(after)}"
+            ctx.check(n > 0 and bad is None, rid, uid, f"{cls}.notify_{op}: {label}",
+                      msg=f"{cls}.notify_{op}({typ!r}, {q}) on subscriber table {before}: {bad or 'no exit'} - a listener that outlives its last subscriber (or a missing one) "
+                      f"makes every later occurrence start zero or several runs per trigger", key=f"{cls} {op} {label}", node=fn, rel=rel)
